@@ -280,8 +280,45 @@ def _quick_n(pid):
     return 350
 
 
+def helper_lemmas(verdict, tier):
+    """Helpers.tla: the adjointness lemmas of unbroadcast / broadcast / repeat_to_match_shape model-checked for every shape of rank <= 3,
+    and the real helper functions replayed on the same tensors and judged by TLC.  Returns a coverage dict."""
+    maxr = 2 if tier == "quick" else 3
+    cfg = "CONSTANTS MaxR = %d Export = %s\nSPECIFICATION Spec\nINVARIANT Lemmas\n"
+    r = vlib.tlc_must_pass(vlib.run_tlc("MCHelpers", cfg=cfg % (3, "FALSE"), workers=16, timeout=3000), "helper lemmas")
+    e = vlib.tlc_must_pass(vlib.run_tlc("MCHelpers", cfg=cfg % (maxr, "TRUE"), workers=1, timeout=3000, tag="MCHelpers-export"), "helper export")
+    cases = [p for p in e.printed if isinstance(p, dict) and "kind" in p]
+    for i, c in enumerate(cases):
+        c["id"] = i + 1
+    obs, files = vlib.parallel_replay("helpers_replay.py", cases, nproc=8, tag="helpers")
+    accepted, g2, d2, _w, _inv = vlib.parallel_validate("TraceHelpers", files, cfg="SPECIFICATION Spec\n", njvm=8)
+    for o in obs:
+        good = (not o["err"]) and o["got"] == o["want"]
+        if good != (o["id"] in accepted) and not (o["kind"] == "repeat" and good):
+            raise vlib.MachineryError("TLC and the Python mirror disagree on helper observation %s" % o)
+        if o["id"] not in accepted:
+            verdict.violation({"prim": o["kind"], "fam": "helper-function", "t": o["t"], "r": o["r"]},
+                              {"reason": "shared helper %s returned %s (shape %s), the adjoint/forward map gives %s" % (o["kind"], o["got"][:12], o["gotshape"], o["want"][:12]),
+                               "case": {k: o[k] for k in ("kind", "t", "r", "ax", "keep")}, "err": o["err"]})
+    return {"lemma_cases_model_checked": r.distinct // 2, "states": r.distinct + e.distinct + d2, "transitions": r.generated + e.generated + g2,
+            "helper_calls_replayed": len(obs), "accepted": len(accepted)}
+
+
+def _with_helpers(pid, tier, seed, per_family):
+    t0 = time.time()
+    v, cov = run_rules(pid, tier, seed, FAMILIES, per_family, RULE, ASSUME, write=False)
+    h = helper_lemmas(v, tier)
+    cov["states"] += h["states"]
+    cov["transitions"] += h["transitions"]
+    cov["traces_validated_against_impl"] += h["helper_calls_replayed"]
+    cov["shared_helper_lemmas"] = h
+    rc = v.finish()
+    vlib.write_evidence(pid, tier, seed, "model_checking", cov, ASSUME, time.time() - t0, len(v.violations))
+    return rc
+
+
 def c01(tier, seed, replay=None):
-    return run_rules("C01", tier, seed, FAMILIES, 2500, RULE, ASSUME)
+    return _with_helpers("C01", tier, seed, 2500)
 
 
 def c02(tier, seed, replay=None):
@@ -293,7 +330,7 @@ def c04(tier, seed, replay=None):
 
 
 def c05(tier, seed, replay=None):
-    return run_rules("C05", tier, seed, FAMILIES, 1500, RULE, ASSUME)
+    return _with_helpers("C05", tier, seed, 1500)
 
 
 def c06(tier, seed, replay=None):
